@@ -220,6 +220,15 @@ def subdir_cases(ctx, opts, tag):
                f"R~PLAIN{ext}/B{ext}~C{ext}", f"D~PLAIN{ext}/B{ext}", f"L~D1/IN{ext}/X"]
         out.append(f"fsh {tag}{k} {fs} {lab} {opts} {';'.join(ops)}")
         k += 1
+        # a name is taken by whatever holds it: a file cannot take the name of a directory beside it, nor a directory that of a file
+        # or of another directory, by rename, put or mkdir; in the root and one level down
+        for pre in ('', 'D1/'):
+            ops = (["M~D1"] if pre else []) + [f"M~{pre}SUBA", f"M~{pre}SUBB", f"P~{pre}FILE{ext}~0~U~~~v", f"P~{pre}OTHER~0-1~U~~~v", f"P~{pre}SUBA/IN{ext}~0~U~~~v",
+                   f"R~{pre}FILE{ext}~SUBA", f"R~{pre}OTHER~suba", f"R~{pre}SUBA~FILE{ext}", f"R~{pre}SUBB~OTHER", f"R~{pre}SUBA~SUBB", f"R~{pre}subb~SUBA",
+                   f"M~{pre}FILE{ext}", f"M~{pre}OTHER", f"M~{pre}suba", f"P~{pre}SUBA~0~U~~", f"P~{pre}subb~0~U~~",
+                   f"R~{pre}SUBA~SUBC", f"R~{pre}OTHER~SUBA", f"R~{pre}FILE{ext}~SUBC", f"P~{pre}SUBC/IN2{ext}~0~U~~~v"]
+            out.append(f"fsh {tag}{k} {fs} {lab} {opts} {';'.join(ops)}")
+            k += 1
     return out
 
 
@@ -354,6 +363,14 @@ def standard_run(ctx, pid, opts='r', lock_heavy=False, also=(), model_ok=True, n
         if pid == 'C01':
             cpm_extent_stream(ctx)
     oracle = corpus_cases(pid) + collide_cases(ctx, opts, 'oc') + bigfile_cases(ctx, opts, 'ob') + subdir_cases(ctx, opts, 'os') + (lockbig_cases(ctx, opts, 'ol') if lock_heavy else []) + dirfill_cases(ctx, opts, 'od') + slotfill_cases(ctx, opts, 'of') + exactfit_cases(ctx, opts, 'oe') + gen_cases(ctx, ALL_FS, n_o, opts, False, lock_heavy=lock_heavy, tag='o')
+    if pid == 'C06':
+        # every second history on a container with metadata runs on an image that carries notes of several lines
+        def noted(i, c):
+            t = c.split(' ', 5)
+            if i % 2 == 0 and t[3].split(':')[0] in ('td0', 'imd', 'woz1', 'woz2', '2mg-po', '2mg-do', '2mg-nib') and 'n' not in t[4]:
+                t[4] += 'n'
+            return ' '.join(t)
+        oracle = [noted(i, c) for i, c in enumerate(oracle)]
     out = run_oracle(ctx, pid, oracle, also=also)
     ctx.samples += [oracle[-1][:300] + ' -> ' + (out.get(oracle[-1].split()[1]) or '')[:300]]
     ctx.distribution['rule'] = ('a case is one operation history on one (file system, disk kind, container); distinct by text; non-trivial = it ran to its end or to an '
